@@ -56,6 +56,8 @@ RATES = {
     "Perzyna": ("Perzyna", dict(eta=50.0, n=1.0, sigma_0=SIGMA_Y)),
     # exponent below 1 (legal: the factory asks n > 0): the scalar residual of the local solve is not convex in the multiplier
     "NortonRoot": ("Norton", dict(A=3e-4, n=0.5, sigma_0=SIGMA_Y)),
+    # a steep law (metals at high temperature: n = 5 .. 10)
+    "Norton8": ("Norton", dict(A=1e-3, n=8.0, sigma_0=SIGMA_Y)),
 }
 BRANCHES = {"none": [], "one": [(0.3, 2.0)], "two": [(0.2, 0.5), (0.3, 5.0)]}
 DIMS = ["3D", "PlaneStrain", "PlaneStress"]
